@@ -20,11 +20,6 @@ pub fn introspect_schema(
 ) -> CliResult<()> {
     use std::io::Write;
 
-    let out: Box<dyn Write> = match output {
-        Some(path) => Box::new(::std::fs::File::create(path)?),
-        None => Box::new(std::io::stdout()),
-    };
-
     let mut request_body: graphql_client::QueryBody<()> = graphql_client::QueryBody {
         variables: (),
         query: introspection_query::QUERY,
@@ -88,6 +83,13 @@ pub fn introspect_schema(
     }
 
     let json: serde_json::Value = res.json()?;
+
+    // Only touch the output once there is something to write: a failed request must not
+    // truncate an existing schema file.
+    let out: Box<dyn Write> = match output {
+        Some(path) => Box::new(::std::fs::File::create(path)?),
+        None => Box::new(std::io::stdout()),
+    };
     serde_json::to_writer_pretty(out, &json)?;
 
     Ok(())
